@@ -6,11 +6,17 @@ Descriptor language: Class.key (required key, subscript), Class.key? (.get), ?=d
 enum(start)@iterable, const:value, first element = INSERT verb, for sub-selects the second element is the
 looked-up table."""
 BINDINGS = {
+    ('adjpositions', '<row produced when>'): [
+        ('INSERT', 'Sense.adjposition?', 'over param:entries', 'over _local_senses(LexicalEntry.senses)'),
+    ],
     ('adjpositions', 'adjposition'): [
         ('INSERT', 'Sense.adjposition'),
     ],
     ('adjpositions', 'sense_rowid'): [
         ('INSERT', 'senses', 'Sense.id', 'lid(Sense.id)'),
+    ],
+    ('counts', '<row produced when>'): [
+        ('INSERT', 'over param:entries', 'over LexicalEntry.senses', 'over Sense.counts?=[]'),
     ],
     ('counts', 'count'): [
         ('INSERT', 'Count.value'),
@@ -26,6 +32,9 @@ BINDINGS = {
     ],
     ('counts', 'sense_rowid'): [
         ('INSERT', 'senses', 'Sense.id', 'lid(Sense.id)'),
+    ],
+    ('definitions', '<row produced when>'): [
+        ('INSERT', 'over _batch(param:synsets)', 'over param:synsets', 'over Synset.definitions?=[]'),
     ],
     ('definitions', 'definition'): [
         ('INSERT', 'Definition.text'),
@@ -48,6 +57,9 @@ BINDINGS = {
     ('definitions', 'synset_rowid'): [
         ('INSERT', 'synsets', 'Synset.id', 'lid(Synset.id)'),
     ],
+    ('entries', '<row produced when>'): [
+        ('INSERT', 'over _batch(_local_entries(param:entries))', 'over _local_entries(param:entries)'),
+    ],
     ('entries', 'id'): [
         ('INSERT', 'LexicalEntry.id'),
     ],
@@ -62,6 +74,10 @@ BINDINGS = {
     ],
     ('entries', 'rowid'): [
         ('INSERT', 'null'),
+    ],
+    ('forms', '<row produced when>'): [
+        ('INSERT', 'not (external(Form))', 'over _batch(param:entries)', 'over param:entries', 'over enumerate(LexicalEntry.forms, const:1)'),
+        ('INSERT', 'not (external(LexicalEntry))', 'over _batch(param:entries)', 'over param:entries'),
     ],
     ('forms', 'entry_rowid'): [
         ('INSERT', 'entries', 'LexicalEntry.id', 'lid(LexicalEntry.id)'),
@@ -92,6 +108,10 @@ BINDINGS = {
         ('INSERT', 'Form.script?'),
         ('INSERT', 'LexicalEntry.lemma.script?'),
     ],
+    ('ili_statuses', '<row produced when>'): [
+        ('INSERT',),
+        ('INSERT OR IGNORE', "over sorted(set(gen[var:info.status?='active' over list(expr:_ili.load(source))]))"),
+    ],
     ('ili_statuses', 'rowid'): [
         ('INSERT', 'null'),
         ('INSERT OR IGNORE', 'null'),
@@ -100,6 +120,10 @@ BINDINGS = {
         ('INSERT', "const:'presupposed'"),
         ('INSERT', "const:'proposed'"),
         ('INSERT OR IGNORE', "each(list(expr:_ili.load(source))).status?='active'"),
+    ],
+    ('ilis', '<row produced when>'): [
+        ('INSERT ON CONFLICT', 'over _batch(list(expr:_ili.load(source)))', 'over list(expr:_ili.load(source))'),
+        ('INSERT OR IGNORE', "Synset.ili and Synset.ili != const:'in'", 'over _batch(_local_synsets(param:synsets))', 'over _local_synsets(param:synsets)'),
     ],
     ('ilis', 'definition'): [
         ('INSERT ON CONFLICT', 'each(list(expr:_ili.load(source))).definition?'),
@@ -121,11 +145,17 @@ BINDINGS = {
         ('INSERT ON CONFLICT', 'ili_statuses', "each(list(expr:_ili.load(source))).status?='active'"),
         ('INSERT OR IGNORE', 'ili_statuses', "const:'presupposed'"),
     ],
+    ('lexfiles', '<row produced when>'): [
+        ('INSERT OR IGNORE', "over sorted(set[Synset.lexfile?='' over _local_synsets(Lexicon|LexiconExtension.synsets) if Synset.lexfile?])"),
+    ],
     ('lexfiles', 'name'): [
         ('INSERT OR IGNORE', "Synset.lexfile?=''"),
     ],
     ('lexfiles', 'rowid'): [
         ('INSERT OR IGNORE', 'null'),
+    ],
+    ('lexicon_dependencies', '<row produced when>'): [
+        ('INSERT', 'not (not (isinstance(lexid, var:int)))', 'over Lexicon|LexiconExtension.requires?=[]', 'over Lexicon|LexiconExtension.requires?=[]'),
     ],
     ('lexicon_dependencies', 'dependent_rowid'): [
         ('INSERT', 'lexid'),
@@ -142,6 +172,9 @@ BINDINGS = {
     ('lexicon_dependencies', 'provider_version'): [
         ('INSERT', 'Dependency.version'),
     ],
+    ('lexicon_extensions', '<row produced when>'): [
+        ('INSERT', 'Lexicon|LexiconExtension.extends?', 'not (not (isinstance(lexid, var:int)))'),
+    ],
     ('lexicon_extensions', 'base_id'): [
         ('INSERT', 'LexiconExtension.extends.id'),
     ],
@@ -156,6 +189,9 @@ BINDINGS = {
     ],
     ('lexicon_extensions', 'extension_rowid'): [
         ('INSERT', 'lexid'),
+    ],
+    ('lexicons', '<row produced when>'): [
+        ('INSERT',),
     ],
     ('lexicons', 'citation'): [
         ('INSERT', 'Lexicon|LexiconExtension.citation?'),
@@ -193,6 +229,10 @@ BINDINGS = {
     ('lexicons', 'version'): [
         ('INSERT', 'Lexicon|LexiconExtension.version'),
     ],
+    ('pronunciations', '<row produced when>'): [
+        ('INSERT', 'LexicalEntry.lemma?', 'over _batch(param:entries)', 'over param:entries', 'over LexicalEntry.lemma.pronunciations?=[]'),
+        ('INSERT', 'over _batch(param:entries)', 'over param:entries', 'over enumerate(LexicalEntry.forms, const:1)', 'over Form.pronunciations?=[]'),
+    ],
     ('pronunciations', 'audio'): [
         ('INSERT', 'Pronunciation.audio?'),
     ],
@@ -212,6 +252,9 @@ BINDINGS = {
     ('pronunciations', 'variety'): [
         ('INSERT', 'Pronunciation.variety?'),
     ],
+    ('proposed_ilis', '<row produced when>'): [
+        ('INSERT', "Synset.ili == const:'in'", 'over _batch(_local_synsets(param:synsets))', 'over _local_synsets(param:synsets)'),
+    ],
     ('proposed_ilis', 'definition'): [
         ('INSERT', '(Synset.ili_definition?.text if Synset.ili_definition? else const:None)'),
     ],
@@ -224,11 +267,17 @@ BINDINGS = {
     ('proposed_ilis', 'synset_rowid'): [
         ('INSERT', 'synsets', 'Synset.id', 'lexid'),
     ],
+    ('relation_types', '<row produced when>'): [
+        ('INSERT OR IGNORE', 'over sorted(set(gen[Relation.relType over Lexicon|LexiconExtension.synsets , Synset.relations?=[]]))'),
+    ],
     ('relation_types', 'rowid'): [
         ('INSERT OR IGNORE', 'null'),
     ],
     ('relation_types', 'type'): [
         ('INSERT OR IGNORE', 'Relation.relType'),
+    ],
+    ('sense_examples', '<row produced when>'): [
+        ('INSERT', 'over _batch(param:objs)', 'over param:objs', 'over Sense|Synset.examples?=[]'),
     ],
     ('sense_examples', 'example'): [
         ('INSERT', 'Example.text'),
@@ -248,6 +297,9 @@ BINDINGS = {
     ('sense_examples', 'sense_rowid'): [
         ('INSERT', 'senses', 'Sense|Synset.id', 'lid(Sense|Synset.id)'),
     ],
+    ('sense_relations', '<row produced when>'): [
+        ('INSERT', "over [[const:'sense_relations', var:SENSE_QUERY, []], [const:'sense_synset_relations', var:SYNSET_QUERY, []]]", 'over _batch([])', 'over []'),
+    ],
     ('sense_relations', 'lexicon_rowid'): [
         ('INSERT', 'lexid'),
     ],
@@ -266,6 +318,9 @@ BINDINGS = {
     ('sense_relations', 'type_rowid'): [
         ('INSERT', 'relation_types', 'Relation.relType'),
     ],
+    ('sense_synset_relations', '<row produced when>'): [
+        ('INSERT', "over [[const:'sense_relations', var:SENSE_QUERY, []], [const:'sense_synset_relations', var:SYNSET_QUERY, []]]", 'over _batch([])', 'over []'),
+    ],
     ('sense_synset_relations', 'lexicon_rowid'): [
         ('INSERT', 'lexid'),
     ],
@@ -283,6 +338,9 @@ BINDINGS = {
     ],
     ('sense_synset_relations', 'type_rowid'): [
         ('INSERT', 'relation_types', 'Relation.relType'),
+    ],
+    ('senses', '<row produced when>'): [
+        ('INSERT', 'over _batch(param:entries)', 'over param:entries', 'over enumerate(_local_senses(LexicalEntry.senses))'),
     ],
     ('senses', 'entry_rank'): [
         ('INSERT', 'enum(0)@_local_senses(LexicalEntry.senses)'),
@@ -311,6 +369,9 @@ BINDINGS = {
     ('senses', 'synset_rowid'): [
         ('INSERT', 'synsets', 'Sense.synset', 'lid(Sense.synset)'),
     ],
+    ('synset_examples', '<row produced when>'): [
+        ('INSERT', 'over _batch(param:objs)', 'over param:objs', 'over Sense|Synset.examples?=[]'),
+    ],
     ('synset_examples', 'example'): [
         ('INSERT', 'Example.text'),
     ],
@@ -329,6 +390,9 @@ BINDINGS = {
     ('synset_examples', 'synset_rowid'): [
         ('INSERT', 'synsets', 'Sense|Synset.id', 'lid(Sense|Synset.id)'),
     ],
+    ('synset_relations', '<row produced when>'): [
+        ('INSERT', 'over _batch(param:synsets)', 'over param:synsets', 'over Synset.relations?=[]'),
+    ],
     ('synset_relations', 'lexicon_rowid'): [
         ('INSERT', 'lexid'),
     ],
@@ -346,6 +410,9 @@ BINDINGS = {
     ],
     ('synset_relations', 'type_rowid'): [
         ('INSERT', 'relation_types', 'Relation.relType'),
+    ],
+    ('synsets', '<row produced when>'): [
+        ('INSERT', 'over _batch(_local_synsets(param:synsets))', 'over _local_synsets(param:synsets)'),
     ],
     ('synsets', 'id'): [
         ('INSERT', 'Synset.id'),
@@ -371,11 +438,17 @@ BINDINGS = {
     ('synsets', 'rowid'): [
         ('INSERT', 'null'),
     ],
+    ('syntactic_behaviour_senses', '<row produced when>'): [
+        ('INSERT', 'over dict[SyntacticBehaviour.subcategorizationFrame: SyntacticBehaviour.senses?=[] over param:synbhrs]', 'over expr:framemap[frame]'),
+    ],
     ('syntactic_behaviour_senses', 'sense_rowid'): [
         ('INSERT', 'senses', 'each(SyntacticBehaviour.senses?=[])', 'lid(each(SyntacticBehaviour.senses?=[]))'),
     ],
     ('syntactic_behaviour_senses', 'syntactic_behaviour_rowid'): [
         ('INSERT', 'syntactic_behaviours', 'lexid', 'SyntacticBehaviour.subcategorizationFrame'),
+    ],
+    ('syntactic_behaviours', '<row produced when>'): [
+        ('INSERT', 'over param:synbhrs'),
     ],
     ('syntactic_behaviours', 'frame'): [
         ('INSERT', 'SyntacticBehaviour.subcategorizationFrame'),
@@ -388,6 +461,10 @@ BINDINGS = {
     ],
     ('syntactic_behaviours', 'rowid'): [
         ('INSERT', 'null'),
+    ],
+    ('tags', '<row produced when>'): [
+        ('INSERT', 'LexicalEntry.lemma?', 'over _batch(param:entries)', 'over param:entries', 'over LexicalEntry.lemma.tags?=[]'),
+        ('INSERT', 'over _batch(param:entries)', 'over param:entries', 'over enumerate(LexicalEntry.forms, const:1)', 'over Form.tags?=[]'),
     ],
     ('tags', 'category'): [
         ('INSERT', 'Tag.category'),
